@@ -14,6 +14,7 @@ import (
 
 	"kvassverif/internal/core"
 	"kvassverif/internal/sc"
+	"tkestack.io/kvass/pkg/shard"
 	kk "tkestack.io/kvass/pkg/shard/kubernetes"
 )
 
@@ -159,6 +160,10 @@ func runK8sLifeCase(w *core.WorkerCtx, k int, prop string) *core.CaseResult {
 	// B's name sorts before or after A's
 	bName := r.PickS("prom-0b", "prom-b")
 	res.Sig = fmt.Sprintf("k8s/%s/%v/%s", prop, steps, bName)
+	if prop == "C19" && k%4 == 3 {
+		runK8sTwoNamespaces(r, res)
+		return res
+	}
 	bGap := r.Intn(3) == 0
 	alone, err := runK8sLife(steps, false, bName, false)
 	if err != nil {
@@ -203,4 +208,91 @@ func runK8sLifeCase(w *core.WorkerCtx, k int, prop string) *core.CaseResult {
 		}
 	}
 	return res
+}
+
+// Two installations of the same chart in two namespaces (same StatefulSet name, same pod labels and names),
+// coordinated by one coordinator with --shard.namespace="" (all namespaces): the shards of the one in team-a
+// must be listed exactly as if the other did not exist.
+func describeShards(m interface {
+	Shards() ([]*shard.Shard, error)
+}) (string, error) {
+	shards, err := m.Shards()
+	if err != nil {
+		return "", err
+	}
+	var sb strings.Builder
+	for _, s := range shards {
+		url := ""
+		if s.Ready {
+			s.APIGet = func(u string, ret interface{}) error { url = u; return fmt.Errorf("stop") }
+			_, _ = s.RuntimeInfo()
+		}
+		fmt.Fprintf(&sb, "%s ready=%v %s | ", s.ID, s.Ready, strings.TrimSuffix(url, "api/v1/shard/runtimeinfo/"))
+	}
+	return sb.String(), nil
+}
+
+func runK8sTwoNamespaces(r *core.Rng, res *core.CaseResult) {
+	nA, nB := 1+r.Intn(3), 1+r.Intn(3)
+	maskA, maskB := r.Intn(1<<uint(nA)), r.Intn(1<<uint(nB))
+	build := func(withB bool) (string, []string, error) {
+		var objs []runtime.Object
+		add := func(ns string, n, mask int, ipBase string) {
+			nn := int32(n)
+			objs = append(objs, &appsv1.StatefulSet{ObjectMeta: metav1.ObjectMeta{Name: "prom", Namespace: ns, Labels: map[string]string{"kvass": "shards"}},
+				Spec:   appsv1.StatefulSetSpec{Replicas: &nn, Selector: &metav1.LabelSelector{MatchLabels: map[string]string{"app": "prom"}}},
+				Status: appsv1.StatefulSetStatus{Replicas: nn, UpdatedReplicas: nn, ReadyReplicas: nn}})
+			for k := 0; k < n; k++ {
+				p := &corev1.Pod{ObjectMeta: metav1.ObjectMeta{Name: fmt.Sprintf("prom-%d", k), Namespace: ns, Labels: map[string]string{"app": "prom"}}}
+				if mask&(1<<uint(k)) != 0 {
+					p.Status.PodIP = fmt.Sprintf("%s.%d", ipBase, k+10)
+				}
+				objs = append(objs, p)
+			}
+		}
+		add("team-a", nA, maskA, "10.1.0")
+		if withB {
+			add("team-b", nB, maskB, "10.2.0")
+		}
+		cli := fake.NewSimpleClientset(objs...)
+		rm := kk.NewReplicasManager(cli, "", "kvass=shards", 8080, false, sc.Quiet)
+		mgrs, err := rm.Replicas()
+		if err != nil {
+			return "", nil, err
+		}
+		var all []string
+		for _, m := range mgrs {
+			d, err := describeShards(m)
+			if err != nil {
+				return "", nil, err
+			}
+			all = append(all, d)
+		}
+		if len(all) == 0 {
+			return "", all, nil
+		}
+		return all[0], all, nil
+	}
+	alone, _, err := build(false)
+	if err != nil {
+		res.Inconcl = "fake clientset: " + err.Error()
+		return
+	}
+	_, both, err := build(true)
+	if err != nil {
+		res.Inconcl = "fake clientset: " + err.Error()
+		return
+	}
+	res.Execs += 2
+	res.AddStat("k8s_two_namespace_layouts", 1)
+	found := false
+	for _, d := range both {
+		if d == alone {
+			found = true
+		}
+	}
+	if !found || len(both) != 2 {
+		res.Violate("C19/k8s/shards-depend-on-statefulset-in-another-namespace", "StatefulSet team-a/prom alone lists its shards as [%s]; next to team-b/prom (same chart) the managers list %v", alone, both)
+		res.Witness = map[string]interface{}{"replicas_a": nA, "replicas_b": nB, "alone": alone, "with_other": both}
+	}
 }
